@@ -209,6 +209,36 @@ func (g *Grammar) ExprString(e *syntax.Expr) string {
 	}
 }
 
+// BisonRHS renders the right-hand side of a rule exactly as it was handed to the LALR generator:
+// terminals by their IDs, nonterminals (including the ones extracted from mid-rule actions and
+// lists) by their names, state markers as comments, followed by the %prec marker.
+func (g *Grammar) BisonRHS(r *Rule) string {
+	var sb strings.Builder
+	for _, sym := range r.RHS {
+		if sb.Len() > 0 {
+			sb.WriteByte(' ')
+		}
+		switch {
+		case sym.IsStateMarker():
+			sb.WriteString("/*.")
+			sb.WriteString(g.Parser.Tables.Markers[sym.AsMarker()].Name)
+			sb.WriteString("*/")
+		case int(sym) < g.NumTokens:
+			sb.WriteString(g.Syms[sym].ID)
+		default:
+			sb.WriteString(g.Syms[sym].Name)
+		}
+	}
+	if sb.Len() == 0 {
+		sb.WriteString("%empty")
+	}
+	if r.Precedence > 0 {
+		sb.WriteString(" %prec ")
+		sb.WriteString(g.Syms[r.Precedence].ID)
+	}
+	return sb.String()
+}
+
 // RuleString returns a user-friendly rendering of a given rule.
 func (g *Grammar) RuleString(r Rule) string {
 	var sb strings.Builder
